@@ -243,11 +243,6 @@ contract(
         APPEND: _APPENDED + [
             "len(lbs) == len(r0) + 1 and len(mems) == len(r0) + 1 and len(src) == len(r0) + 1 and lbs[len(r0)] == lb and mems[len(r0)] == mem and src[len(r0)] == i",
             f"all(implies({_kept('lb', 'anchors[b]', 'b')}, (anchors[b].number + 0) in mem and anchors[b] in mem[anchors[b].number]) for b in range(len(anchors)))",
-            # the invariant's clause for the new statement and for the earlier ones, in the shape of the invariant
-            f"all(implies(k == len(r0), all(implies({_kept('lbs[k]', AL + '[' + KEYS + '[src[k]]][b]', 'b')}, ({AL}[{KEYS}[src[k]]][b].number + 0) in mems[k] and {AL}[{KEYS}[src[k]]][b] in mems[k][{AL}[{KEYS}[src[k]]][b].number])"
-            f" for b in range(len({AL}[{KEYS}[src[k]]])))) for k in range(len(result)))",
-            f"all(implies(k < len(r0), all(implies({_kept('lbs[k]', AL + '[' + KEYS + '[src[k]]][b]', 'b')}, ({AL}[{KEYS}[src[k]]][b].number + 0) in mems[k] and {AL}[{KEYS}[src[k]]][b] in mems[k][{AL}[{KEYS}[src[k]]][b].number])"
-            f" for b in range(len({AL}[{KEYS}[src[k]]])))) for k in range(len(result)))",
         ],
         SETAPP: [
             "all(implies(n != number, n in componentAnchors and componentAnchors[n] == ca0[n]) for n in ca0)",
